@@ -10,7 +10,7 @@ behaviour a property depends on (then a rule is missing) or not (logging, statis
 performance only).  The survey never decides a property; it is a development aid, its results are
 summarised in DESIGN.md section 11.7 and kept in survey/.
 
-usage: survey.py <out.jsonl> [--jobs N] [--op delete|swallow] [--all-files] [--list] [--only file.rs:fn ...]
+usage: survey.py <out.jsonl> [--jobs N] [--op delete|swallow] [--all-files] [--list] [--rerun-survivors prev.jsonl] [--only file.rs:fn ...]
 (--only must come last)
 """
 import os, sys, re, json, subprocess, tempfile, shutil, concurrent.futures
@@ -198,6 +198,10 @@ def main():
                 if (rel, name, text) in done:
                     continue
                 jobs.append((rel, name, x, y, text))
+    if '--rerun-survivors' in a:
+        prev = [json.loads(l) for l in open(a[a.index('--rerun-survivors') + 1])]
+        want = {(d['file'], d['fn'], d['text']) for d in prev if d['compiles'] and not d['violating']}
+        jobs = [j for j in jobs if (j[0], j[1], j[4]) in want]
     # nested fn extents repeat statements: dedupe by position
     seen = set()
     uniq = []
